@@ -2,6 +2,7 @@
 package c04
 
 import (
+	"golang.org/x/crypto/ssh"
 	"path/filepath"
 	"errors"
 	"fmt"
@@ -40,6 +41,7 @@ type Case struct {
 	Scopes    []string `json:"scopes"`
 	Transport string   `json:"transport"` // tcp tls websocket kcp quic
 	TCPMux    bool     `json:"tcpmux"`
+	SSHAnon   bool     `json:"ssh_anonymous"` // ... without authorized_keys: any ssh peer may connect, the token is the credential
 	SSH       bool     `json:"ssh_gateway"` // frps runs the ssh tunnel gateway with an authorized_keys file
 	Ops       []Op     `json:"ops"`
 }
@@ -67,6 +69,7 @@ func gen(t *rapid.T) Case {
 		bad = oidcBadKeys
 	}
 	c.SSH = c.Method == "token" && rapid.IntRange(0, 3).Draw(t, "ssh") == 0
+	c.SSHAnon = c.SSH && rapid.Bool().Draw(t, "sshanon")
 	kinds := []string{"badlogin", "badlogin", "badlogin", "goodlogin", "firstmsg", "ping", "ping", "workconn", "workconn", "workconn", "userconn"}
 	if c.SSH {
 		kinds = append(kinds, "sshtunnel", "sshtunnel", "sshstranger")
@@ -87,6 +90,8 @@ func gen(t *rapid.T) Case {
 			op.AlwaysPass = rapid.Bool().Draw(t, "alwayspass")
 		case "sshtunnel":
 			op.Repeat = rapid.IntRange(0, 1).Draw(t, "keepopen") // 1: the tunnel stays up while the following operations run
+		case "sshstranger":
+			op.Key = rapid.SampledFrom([]string{"wrongtoken", "empty", "absent"}).Draw(t, "sshkey") // anonymous gateway: what the stranger passes as --token
 		case "firstmsg":
 			op.MsgType = rapid.SampledFrom(firstTypes).Draw(t, "msgtype")
 		case "ping":
@@ -261,6 +266,9 @@ func run(c Case) error {
 		if c.SSH && sshKeys() != nil {
 			sc.SSHTunnelGateway = v1.SSHTunnelGateway{BindPort: b.Port(fx.SlotSSH), AutoGenPrivateKeyPath: filepath.Join(sshKeys().dir, fmt.Sprintf("hostkey-%d", b.Port(fx.SlotSSH))),
 				AuthorizedKeysFile: sshKeys().authorizedFile}
+			if c.SSHAnon {
+				sc.SSHTunnelGateway.AuthorizedKeysFile = ""
+			}
 		}
 	})}
 	if c.Transport == "kcp" {
@@ -445,6 +453,44 @@ func run(c Case) error {
 				continue
 			}
 			gw := s.Addr(fx.SlotSSH)
+			if c.SSHAnon {
+				// a gateway without authorized_keys lets any ssh peer in; the session behind it needs the token
+				if op.Kind == "sshstranger" {
+					args := []string{"--expect-refusal"}
+					switch op.Key {
+					case "wrongtoken":
+						args = []string{"--token", "not-the-token"}
+					case "empty":
+						args = []string{"--token", "''"}
+					}
+					var signer ssh.Signer
+					if i%2 == 0 {
+						signer = sshKeys().stranger
+					}
+					if args[0] != "--expect-refusal" {
+						args = append([]string{"--expect-refusal"}, args...)
+					}
+					cl, up, _ := openSSHTunnel(gw, signer, fmt.Sprintf("sshx%d", i), s.AllowPort(6), args...)
+					cl()
+					if up {
+						return fmt.Errorf("step %d: ssh gateway without authorized_keys: a peer that passed ssh 'none' authentication and presented %s token got a session and a proxy (port %d listening)", i, op.Key, s.AllowPort(6))
+					}
+					fx.AddLabel("sequences", "ssh-anonymous-without-token-refused", 1)
+					continue
+				}
+				cl, up, aerr := openSSHTunnel(gw, nil, fmt.Sprintf("ssh%d", i), s.AllowPort(5), "--token", fx.Token)
+				if aerr != nil || !up {
+					cl()
+					return fx.Inconclusive("step %d: anonymous ssh tunnel with the right token did not come up (%v)", i, aerr)
+				}
+				fx.AddLabel("sequences", "ssh-anonymous-with-token-up", 1)
+				if op.Repeat == 1 {
+					sshClosers = append(sshClosers, cl)
+				} else {
+					cl()
+				}
+				continue
+			}
 			if op.Kind == "sshstranger" {
 				// an ssh user whose key is not in authorized_keys gets nothing at all
 				cl, up, aerr := openSSHTunnel(gw, sshKeys().stranger, fmt.Sprintf("sshx%d", i), s.AllowPort(6))
